@@ -38,6 +38,18 @@ impl ByteCompiler<'_> {
                 actions.push(JumpRecordAction::Transfer { index: i as u32 });
                 break;
             }
+
+            // A labelled `break` that leaves an iterator loop (`for-of`, `for-in`,
+            // `for await`) which is not its target must close that loop's iterator
+            // record, exactly like `continue` and `return` do: the target only closes
+            // its own record (if it is an iterator loop at all), so without this the
+            // inner record stays on the frame's iterator stack and the enclosing loop
+            // goes on iterating, and later closes, the wrong iterator.
+            if info.iterator_loop() {
+                actions.push(JumpRecordAction::CloseIterator {
+                    r#async: info.for_await_of_loop(),
+                });
+            }
         }
 
         actions.reverse();
